@@ -537,16 +537,20 @@ func batchLoadPaymentDetailsData(ctx context.Context, cfg *sqldb.QueryConfig,
 		return batchData, nil
 	}
 
-	if includeHops {
-		// Load hops for all attempts and collect hop IDs.
-		hopIDs, err := batchLoadHopsForAttempts(
-			ctx, cfg, db, allAttemptIndices, batchData,
-		)
-		if err != nil {
-			return nil, fmt.Errorf("failed to fetch hops "+
-				"for attempts: %w", err)
-		}
+	// The hops are loaded even if the caller doesn't want them handed out:
+	// the amount an attempt delivers to the receiver, and with it the
+	// remaining amount and the fees of the payment, is only recorded in
+	// the final hop. buildPaymentFromBatchData drops the hops again once
+	// the payment state is derived from them.
+	hopIDs, err := batchLoadHopsForAttempts(
+		ctx, cfg, db, allAttemptIndices, batchData,
+	)
+	if err != nil {
+		return nil, fmt.Errorf("failed to fetch hops for attempts: %w",
+			err)
+	}
 
+	if includeHops {
 		// Load hop-level custom records if there are any hops.
 		if len(hopIDs) > 0 {
 			err = batchLoadHopCustomRecords(
@@ -653,6 +657,14 @@ func buildPaymentFromBatchData(dbPayment sqlc.PaymentAndIntent,
 	// SetState after construction.
 	if err := mpPayment.SetState(); err != nil {
 		return nil, fmt.Errorf("failed to set payment state: %w", err)
+	}
+
+	// Only now that the state is derived from the complete routes can the
+	// hops be left out of the answer.
+	if !includeHops {
+		for i := range mpPayment.HTLCs {
+			mpPayment.HTLCs[i].Route.Hops = nil
+		}
 	}
 
 	return mpPayment, nil
